@@ -1307,7 +1307,8 @@ fn run(a: &vhcore::Args) -> i32 {
             vhcore::machinery_failure(&format!("enumerator produced {got} cases for `{name}` but the independent count is {closed}"));
         }
     }
-    let all: Vec<RawCase> = groups.into_iter().flat_map(|g| g.cases).collect();
+    let mut all: Vec<RawCase> = groups.into_iter().flat_map(|g| g.cases).collect();
+    let dev_stride = dev_stride_filter(&mut all, &mut rep);
     eprintln!("[c27] generated {} cases in {:.1}s", all.len(), t0.elapsed().as_secs_f64());
     let pool = Pool::new(a.jobs, vhcore::work_dir("C27/run"));
 
@@ -1361,7 +1362,7 @@ fn run(a: &vhcore::Args) -> i32 {
     rep.set("plans", json!(counts.iter().map(|(n, g, _)| json!({"space": n, "cases": g})).collect::<Vec<_>>()));
     rep.set("operations_exercised", json!(ex.ops_seen));
     rep.set("children_cpu_seconds", children_cpu_seconds());
-    rep.set("exhaustive", true);
+    rep.set("exhaustive", !dev_stride);
     if thorough {
         rep.cap("thorough tier: the full alphabet is explored to depth 3 from 2 of the 4-5 start states (depth 2 from the others); depth 4 only over the core alphabet (String: depth 4 core / depth 3 full, both start states)");
     } else {
